@@ -375,6 +375,15 @@ def _deser(cv, M, xkey):
         return x.b32.deserialized_extended_key(xkey)
 
 
+def _deser_dict(cv, M, xkey):
+    """the return_dict=True output mode of the same function: the same validation must apply"""
+    with _Ctx(cv, M) as x:
+        d = x.b32.deserialized_extended_key(xkey, return_dict=True)
+        assert set(d) == {"version", "depth", "parent_key_fingerprint", "child_no", "chaincode", "key"}, sorted(d)
+        return ("DICT", bytes.fromhex(d["version"]), d["depth"], bytes.fromhex(d["parent_key_fingerprint"]), d["child_no"],
+                bytes.fromhex(d["chaincode"]), bytes.fromhex(d["key"]))
+
+
 def _get_xpub(cv, M, xkey):
     with _Ctx(cv, M):
         import bits.wallet.hd as hd
@@ -411,7 +420,7 @@ def _root(key, cc, testnet):
 
 IMPL = {
     "ser43": _ser43, "root": _root,
-    "ckdpriv": _ckdpriv, "ckdpub": _ckdpub, "commute": _commute, "master": _master, "ser": _ser, "deser": _deser,
+    "ckdpriv": _ckdpriv, "ckdpub": _ckdpub, "commute": _commute, "master": _master, "ser": _ser, "deser": _deser, "deser_dict": _deser_dict,
     "get_xpub": _get_xpub, "derive": _derive, "derive_stepwise": _derive_stepwise,
     "py_int": lambda s: int(s),
 }
@@ -426,6 +435,8 @@ def model_call(c):
     op, a = c["op"], c["args"]
     if op in ("ckdpriv", "ckdpub", "commute", "deser", "get_xpub", "derive"):
         return "c09_" + op, _cargs(a[0], a[1]) + list(a[2:])
+    if op == "deser_dict":
+        return "c09_deser", _cargs(a[0], a[1]) + list(a[2:])
     if op == "derive_stepwise":
         return "c09_derive", _cargs(a[0], a[1]) + [a[2] + "".join("/" + t for t in a[3]), a[4]]
     if op == "ser43":        # BIP43: always the mainnet version bytes
@@ -436,6 +447,16 @@ def model_call(c):
 
 
 def canon(c, v):
+    if c["op"] == "deser_dict":
+        # both sides -> (version, depth int, fingerprint, child int, chaincode, key as ('priv', k) / ('pub', x, parity))
+        if isinstance(v, (list, tuple)) and len(v) == 7 and v[0] == "DICT":
+            _, ver, depth, fp, child, cc, key = v
+            k = ("priv", int.from_bytes(key, "big")) if len(key) == 32 else ("pub", int.from_bytes(key[1:], "big"), key[0] & 1)
+            return [ver, depth, fp, child, cc, list(k)]
+        if isinstance(v, (list, tuple)) and len(v) == 6:
+            ver, depth, fp, child, cc, key = v
+            k = ["priv", key] if isinstance(key, int) else ["pub", key[0], key[1] & 1]
+            return [ver, int.from_bytes(depth, "big"), fp, int.from_bytes(child, "big"), cc, k]
     return v
 
 
@@ -777,7 +798,23 @@ def _gen_secp(rng, T, out):
             out.append(case("corpus-path", "derive", 0, 0, nodes[-1][0], nodes[0][2].encode()))
 
 
+def _with_dict_mode(cases):
+    """every deserialisation case also through the return_dict=True output mode"""
+    out = []
+    for c in cases:
+        out.append(c)
+        if c["op"] == "deser":
+            c2 = dict(c, op="deser_dict", cls=c["cls"] + "/dict-mode")
+            c2["args"] = list(c["args"])
+            out.append(c2)
+    return out
+
+
 def gen_cases(rng, tier):
+    return _with_dict_mode(_gen_cases(rng, tier))
+
+
+def _gen_cases(rng, tier):
     T = tier == "thorough"
     out = []
     _gen_parser(rng, T, out)
@@ -879,6 +916,13 @@ def prop_oracle(c):
             ok2, s2 = _try(lambda: _ser(key, r[4], r[1], r[2], r[3], X.testnet))
             if not ok2 or s2 != s:
                 return "re-serialising the accepted key does not return it"
+        return None
+    if op == "deser_dict":
+        s = a[2]
+        ok, r = _try(lambda: _deser_dict(cv, M, s))
+        X = ref_parse(C, s)
+        if (X is not None) != ok:
+            return "deserialized_extended_key(return_dict=True) accepts=%s, BIP32 validity=%s" % (ok, X is not None)
         return None
     if op == "get_xpub":
         s = a[2]
@@ -1107,3 +1151,9 @@ def coq_equation(c, mr):
         return None
     return "c09_derive %s %s hmac_sha512 sha256 ripemd160 %s %s = %s" % (
         cur, G, coq_bytes(a[2].encode()), coq_bytes(a[3]), _coq_res(mr, coq_bytes))
+
+
+# ops whose answer must not depend on the concrete bytes-like type of their arguments (they agree on the pinned tree;
+# tools/bytearray_probe.py); common.py re-runs a sample of their cases with bytearray arguments
+BYTEARRAY_OPS = {'master', 'commute', 'deser', 'get_xpub', 'ser', 'derive_stepwise', 'ser43', 'root', 'ckdpriv', 'ckdpub', 'derive'}
+MEMORYVIEW_OPS = {'master', 'ser43', 'ser', 'root', 'ckdpub'}
